@@ -126,7 +126,9 @@ def sweep_C02(ctx):
         start = guarded(ctx, "C02.subtree_traversal", trie.lru_node, p)[1]
         if start is None:
             continue
-        sub = guarded(ctx, "C02.subtree_traversal", lambda: [lru for node, lru in trie.dfs_iter(start, p)])[1]
+        # (the starting LRU may carry an unterminated remainder, which every path of the index ignores)
+        p_arg = p + ctx.obs_rng.choice([b"p:a", b"x"]) if (p.endswith(b"|") and ctx.obs_rng.random() < 0.3) else p
+        sub = guarded(ctx, "C02.subtree_traversal", lambda: [lru for node, lru in trie.dfs_iter(start, p_arg)])[1]
         exp = sorted(q for q in m.nodes if q.startswith(p))
         ctx.check("C02.subtree_traversal", sorted(sub) == exp, lambda: "traversal started at %s yields %s, stored below it: %s" % (short(p), short(sorted(sub)), short(exp)))
     # link ends are stored as block addresses and handed back through bottom-up reconstruction:
@@ -283,18 +285,49 @@ def sweep_C04(ctx):
 
 
 # ---------------------------------------------------------------------------
-def prefix_form(ctx, prefs):
-    """The prefix list as the caller may hand it over: a list, a tuple, or a one-shot iterable
-    (the requests walk it once)."""
-    x = ctx.obs_rng.random()
-    if x < 0.7:
-        return list(prefs)
+def prefix_form(ctx, prefs, one_shot=True, dup=False, remainder=False):
+    """The prefix list as the caller may hand it over: bytes or text (the index encodes text with
+    its own encoding), a list, a tuple, or - where the request walks it once - a one-shot
+    iterable; for set-valued answers also with one entry given twice; for listings also with an
+    unterminated remainder after the last separator (which every path of the index ignores)."""
+    r = ctx.obs_rng
+    out = list(prefs)
+    enc_ = ctx.cfg.get("encoding", "utf-8") or "utf-8"
+    if r.random() < 0.25:
+        conv = []
+        for p in out:
+            try:
+                s_ = p.decode(enc_)
+                conv.append(s_ if (s_.encode(enc_) == p and r.random() < 0.7) else p)
+            except UnicodeDecodeError:
+                conv.append(p)
+        if any(isinstance(x, str) for x in conv):
+            ctx.probe("prefixes_given_as_text")
+            out = conv
+    if dup and out and r.random() < 0.15:
+        x = r.choice(out)
+        if isinstance(x, bytes) and r.random() < 0.5:
+            try:
+                x2 = x.decode(enc_)
+                x = x2 if x2.encode(enc_) == x else x
+            except UnicodeDecodeError:
+                pass
+        out.insert(r.randrange(len(out) + 1), x)
+        ctx.probe("one_prefix_given_twice")
+    if remainder and out and r.random() < 0.1:
+        k_ = r.randrange(len(out))
+        if isinstance(out[k_], bytes) and out[k_].endswith(b"|"):
+            out[k_] = out[k_] + r.choice([b"p:a", b"x", b"f:top"])
+            ctx.probe("prefix_with_unterminated_remainder")
+    x = r.random()
+    if x < 0.7 or not one_shot:
+        return out
     ctx.probe("prefixes_given_as_tuple_or_iterator")
     if x < 0.8:
-        return tuple(prefs)
+        return tuple(out)
     if x < 0.9:
-        return iter(list(prefs))
-    return (p for p in list(prefs))
+        return iter(list(out))
+    return (p for p in list(out))
 
 
 def sweep_C05(ctx):
@@ -304,7 +337,7 @@ def sweep_C05(ctx):
     for w in m.weids():
         prefs = m.we_prefixes(w)
         ctx.obs_rng.shuffle(prefs)
-        r = guarded(ctx, "C05.pages", t.get_webentity_pages, w, prefix_form(ctx, prefs))
+        r = guarded(ctx, "C05.pages", t.get_webentity_pages, w, prefix_form(ctx, prefs, remainder=True))
         ctx.check("C05.pages", r[0] == "ok", lambda: "get_webentity_pages(%r, %s) refused" % (w, short(prefs)))
         got = [(d["lru"], d["crawled"]) for d in r[1]]
         lr = [l for l, _ in got]
@@ -463,7 +496,7 @@ def sweep_C08(ctx):
         mine = {l for l, x in p2w.items() if x == w}
 
         def pagelinks(w=w, prefs=prefs, mine=mine, inbound=False, internal=False, outbound=False):
-            r = guarded(ctx, "C08.pagelinks", t.get_webentity_pagelinks, w, prefs, include_inbound=inbound, include_internal=internal, include_outbound=outbound)
+            r = guarded(ctx, "C08.pagelinks", t.get_webentity_pagelinks, w, prefix_form(ctx, prefs, one_shot=False), include_inbound=inbound, include_internal=internal, include_outbound=outbound)
             if not (inbound or internal or outbound):
                 ctx.check("C08.all_false_refused", r[0] == "refused", lambda: "all-false switch combination was not refused")
                 return
@@ -483,14 +516,14 @@ def sweep_C08(ctx):
 
         def cited_(w=w, prefs=prefs, mine=mine):
             cited = {p2w[x] for (s, x) in m.links if s in mine}
-            r = guarded(ctx, "C08.cited", t.get_webentity_outlinks, w, prefs)[1]
+            r = guarded(ctx, "C08.cited", t.get_webentity_outlinks, w, prefix_form(ctx, prefs, one_shot=False))[1]
             ctx.check("C08.cited", set(r) - {None} == cited - {None}, lambda: "cited webentities of %r = %s expected %s" % (w, short(sorted(x for x in r if x)), short(sorted(x for x in cited if x))))
             if None in cited:
                 ctx.probe("link_end_without_webentity")
 
         def citing_(w=w, prefs=prefs, mine=mine):
             citing = {p2w[s] for (s, x) in links_in if x in mine}
-            r = guarded(ctx, "C08.citing", t.get_webentity_inlinks, w, prefs)[1]
+            r = guarded(ctx, "C08.citing", t.get_webentity_inlinks, w, prefix_form(ctx, prefs, one_shot=False))[1]
             ctx.check("C08.citing", set(r) - {None} == citing - {None}, lambda: "citing webentities of %r = %s expected %s" % (w, short(sorted(x for x in r if x)), short(sorted(x for x in citing if x))))
             if None in citing:
                 ctx.probe("link_end_without_webentity")
@@ -536,9 +569,9 @@ def sweep_C13(ctx):
     for w in m.weids():
         prefs = m.we_prefixes(w)
         ctx.obs_rng.shuffle(prefs)
-        r = guarded(ctx, "C13.parents", t.get_webentity_parent_webentities, w, prefix_form(ctx, prefs))
+        r = guarded(ctx, "C13.parents", t.get_webentity_parent_webentities, w, prefix_form(ctx, prefs, dup=True))
         ctx.check("C13.parents", r[0] == "ok" and sorted(r[1]) == sorted(m.parents_of(w)), lambda: "parents of %r (%s) = %r expected %s" % (w, short(prefs), r, sorted(m.parents_of(w))))
-        r = guarded(ctx, "C13.children", t.get_webentity_child_webentities, w, prefix_form(ctx, prefs))
+        r = guarded(ctx, "C13.children", t.get_webentity_child_webentities, w, prefix_form(ctx, prefs, dup=True))
         exp = sorted(m.children_of(w))
         ctx.check("C13.children", r[0] == "ok" and sorted(r[1]) == exp, lambda: "children of %r (%s) = %r expected %s" % (w, short(prefs), r, exp))
         if exp:
@@ -667,7 +700,7 @@ def sweep_C20(ctx, known=None):
         for k in sorted({1, 2, 3, 10, n + 1}):
             deepest = max((len(stems(l)) for l in mine), default=0) if k == 10 else 0
             for md in (None, 0, 1, 2) + ((257, 300) if deepest > 250 else ()):
-                r = guarded(ctx, "C20.query", t.get_webentity_most_linked_pages, w, prefs, pages_count=k, max_depth=md)
+                r = guarded(ctx, "C20.query", t.get_webentity_most_linked_pages, w, prefix_form(ctx, prefs, one_shot=False), pages_count=k, max_depth=md)
                 ctx.check("C20.query", r[0] == "ok", lambda: "most linked pages refused")
                 got = [(d["lru"], d["indegree"]) for d in r[1]]
                 elig = {}
